@@ -376,10 +376,22 @@ def gen_formula(rng: random.Random, u: dict, *, rich: bool = True, structured_p:
             s = "0 + " + s
         return s
 
+    def paired() -> str:
+        """The same stateful transform over two names that sanitise to one alias (their state must not be shared)."""
+        tr = rng.choice(["center({})", "scale({})", "poly({}, degree=2)", "bs({}, df=4, extrapolation='clip')"])
+        out = []
+        for v in ("a b", "a|b"):
+            e = tr.format(q(v))
+            atoms.append({"vars": [v], "kind": "num", "cls": "num_py", "stateful": True, "bounded": False, "mean_based": True, "expr": e})
+            out.append(e)
+        return " + ".join(out)
+
     form = core.weighted(rng, [("simple", 1 - structured_p), ("lhs", structured_p * 0.5), ("multi", structured_p * 0.2),
                                ("dict", structured_p * 0.15), ("tuple", structured_p * 0.15)])
     if form == "simple":
         spec: Any = part(max_terms)
+        if force_ticked and "a|b" in cols and rng.random() < 0.6:
+            spec = spec + " + " + paired()
     elif form == "lhs":
         lhs = atom()["expr"]
         spec = f"{lhs} ~ {part(max_terms)}"
